@@ -159,6 +159,15 @@ def raw_state(lib, size):
     return np.frombuffer(buf, dtype=np.float64, count=size).copy()
 
 
+def _script_projection(script):
+    """everything a script says (system included: species, reactions, space, state, chemostat map; times; policy; seed;
+    processing mode; units system) - a run must leave the caller's script as it found it"""
+    from . import serial
+    us = script.units_system
+    return json.dumps([serial.phys_script(script), [us["space"], us["time"], us["quantity"]],
+                       [str(script.system.state.units), str(script.t_sample.units), str(script.time_step.units)]], sort_keys=True, default=str)
+
+
 def marshalled(script, units_system):
     """The doubles LibRDEngine.setup hands to the engine for the time quantities."""
     return dict(ts=[float(x) for x in script.t_sample.convert(units_system).value],
@@ -264,6 +273,7 @@ class Runner:
         self.lib = ctypes.CDLL(self.lib_path)
         self.refs = {}
         self.scripts = {}
+        self.script_proj = {}
 
     def engine(self, kind):
         return build.make_engine(kind, lib=self.lib)
@@ -272,6 +282,7 @@ class Runner:
         key = json.dumps(c, sort_keys=True)
         if key not in self.scripts:
             self.scripts[key] = make_script(c)
+            self.script_proj[key] = _script_projection(self.scripts[key])
         return key, self.scripts[key]
 
     def ref(self, c, kind, timeout=20):
@@ -396,10 +407,10 @@ class Runner:
                 if call == "setup":
                     cid = cl[2]
                     c = h["cfgs"][cid]
-                    _, script = self.script(c)
-                    us_before = (script.units_system["space"], script.units_system["time"], script.units_system["quantity"])
+                    skey, script = self.script(c)
+                    us_before = _script_projection(script)
                     result = eng.setup(script if given_script is None else given_script)
-                    us_after = (script.units_system["space"], script.units_system["time"], script.units_system["quantity"])
+                    us_after = _script_projection(script)
                     own[obj] = (cid, h["kinds"][obj])
                     glob = own[obj]
                     rf = refs[own[obj]]
@@ -414,6 +425,8 @@ class Runner:
                         cfg["kind"] = "default-t_max-is-not-the-last-requested-time"
                     if us_before != us_after:
                         cfg["kind"] = "caller-script-modified-by-setup"
+                    if us_before != self.script_proj[skey]:
+                        cfg["kind"] = "caller-script-modified-by-earlier-calls"
                     if given_script is not None and given_script is not script:
                         cfg["kind"] = "driver-handed-over-another-script"
                     d["cfg"] = cfg
